@@ -7,17 +7,20 @@ namespace Yow.SendBuf
 
 /-! ### the invariant -/
 
+abbrev lockedCfg : Cfg := { locked := true, appendLocked := true }
+
 /-- the remaining operations of a thread that is outside a critical section: whole `sendData` / `handleWrite` programs -/
 inductive Prog : List Op → Prop
   | nil : Prog []
   | sd (d : List Nat) (rest : List Op) : Prog rest →
-      Prog (.acq :: .append d :: .read :: .send :: .cut :: .rel :: rest)
+      Prog (.acq :: .load :: .store d :: .read :: .send :: .cut :: .rel :: rest)
   | hw (rest : List Op) : Prog rest → Prog (.acq :: .read :: .send :: .cut :: .rel :: rest)
 
 /-- the data a thread will still hand to `sendData` -/
 def pending : List Op → List Nat
   | [] => []
-  | .append d :: r => d ++ pending r
+  | .store d :: r => d ++ pending r
+  | .load :: r => pending r
   | .acq :: r => pending r
   | .rel :: r => pending r
   | .read :: r => pending r
@@ -26,45 +29,53 @@ def pending : List Op → List Nat
 
 /-- the thread that holds the lock: where it is in its section, and what that says about the shared state -/
 inductive InSec (buf socket appended : List Nat) (t : Thread) : Prop
-  | app (d : List Nat) (rest : List Op) : t.ops = .append d :: .read :: .send :: .cut :: .rel :: rest → Prog rest →
-      buf = [] → socket = appended → InSec buf socket appended t
+  | load (d : List Nat) (rest : List Op) : t.ops = .load :: .store d :: .read :: .send :: .cut :: .rel :: rest → Prog rest →
+      socket ++ buf = appended → InSec buf socket appended t
+  | store (d : List Nat) (rest : List Op) : t.ops = .store d :: .read :: .send :: .cut :: .rel :: rest → Prog rest →
+      socket ++ buf = appended → t.tmp = buf → InSec buf socket appended t
   | read (rest : List Op) : t.ops = .read :: .send :: .cut :: .rel :: rest → Prog rest →
       socket ++ buf = appended → InSec buf socket appended t
   | send (rest : List Op) : t.ops = .send :: .cut :: .rel :: rest → Prog rest →
       socket ++ buf = appended → t.snapshot = buf → InSec buf socket appended t
   | cut (rest : List Op) : t.ops = .cut :: .rel :: rest → Prog rest →
-      socket = appended → t.sent = buf.length → InSec buf socket appended t
+      t.sent ≤ buf.length → socket ++ buf.drop t.sent = appended → InSec buf socket appended t
   | rel (rest : List Op) : t.ops = .rel :: rest → Prog rest →
-      socket = appended → buf = [] → InSec buf socket appended t
+      socket ++ buf = appended → InSec buf socket appended t
 
 def Inv (total : List Nat) (s : St) : Prop :=
   ∃ t0 t1, s.threads = [t0, t1] ∧ (s.appended ++ pending t0.ops = total ∧ pending t1.ops = []) ∧
-    ((s.lock = none ∧ Prog t0.ops ∧ Prog t1.ops ∧ s.buf = [] ∧ s.socket = s.appended) ∨
+    ((s.lock = none ∧ Prog t0.ops ∧ Prog t1.ops ∧ s.socket ++ s.buf = s.appended) ∨
      (s.lock = some 0 ∧ InSec s.buf s.socket s.appended t0 ∧ Prog t1.ops) ∨
      (s.lock = some 1 ∧ Prog t0.ops ∧ InSec s.buf s.socket s.appended t1))
+
+theorem take_drop_min (l : List Nat) (c : Nat) : l.take c ++ l.drop (min c l.length) = l := by
+  by_cases h : c ≤ l.length
+  · rw [Nat.min_eq_left h]; exact List.take_append_drop c l
+  · have h' : l.length ≤ c := Nat.le_of_lt (Nat.lt_of_not_le h)
+    rw [Nat.min_eq_right h', List.take_of_length_le h', List.drop_length, List.append_nil]
 
 local macro "sb_step" : tactic => `(tactic| (
   simp [Inv, step, setThread]
   refine ⟨_, _, ⟨rfl, rfl⟩, ?_⟩
   simp_all [pending]))
 
-theorem prog_sendData (frames : List (List Nat)) : Prog (frames.flatMap (sendData { locked := true })) := by
+theorem prog_sendData (frames : List (List Nat)) : Prog (frames.flatMap (sendData lockedCfg)) := by
   induction frames with
   | nil => exact .nil
   | cons d fs ih => simpa [sendData, guarded] using Prog.sd d _ ih
 
 theorem pending_sendData (frames : List (List Nat)) :
-    pending (frames.flatMap (sendData { locked := true })) = frames.flatten := by
+    pending (frames.flatMap (sendData lockedCfg)) = frames.flatten := by
   induction frames with
   | nil => rfl
   | cons d fs ih => simp [sendData, guarded, pending, ih]
 
-theorem prog_handleWrite (n : Nat) : Prog (List.replicate n (handleWrite { locked := true })).flatten := by
+theorem prog_handleWrite (n : Nat) : Prog (List.replicate n (handleWrite lockedCfg)).flatten := by
   induction n with
   | zero => exact .nil
   | succ n ih => simpa [List.replicate_succ, handleWrite, guarded] using Prog.hw _ ih
 
-theorem pending_handleWrite (n : Nat) : pending (List.replicate n (handleWrite { locked := true })).flatten = [] := by
+theorem pending_handleWrite (n : Nat) : pending (List.replicate n (handleWrite lockedCfg)).flatten = [] := by
   induction n with
   | zero => rfl
   | succ n ih =>
@@ -73,88 +84,95 @@ theorem pending_handleWrite (n : Nat) : pending (List.replicate n (handleWrite {
     simp [List.replicate_succ, pending, ih]
 
 theorem inv_init (frames : List (List Nat)) (flushes : Nat) :
-    Inv frames.flatten (init { locked := true } frames flushes) := by
-  refine ⟨_, _, rfl, ?_, .inl ⟨rfl, prog_sendData _, prog_handleWrite _, rfl, rfl⟩⟩
+    Inv frames.flatten (init lockedCfg frames flushes) := by
+  refine ⟨_, _, rfl, ?_, .inl ⟨rfl, prog_sendData _, prog_handleWrite _, rfl⟩⟩
   simp [init, pending_sendData, pending_handleWrite]
 
 set_option linter.unusedSimpArgs false in
 set_option linter.unusedVariables false in
-theorem inv_step (total : List Nat) (s : St) (i : Nat) (h : Inv total s) : Inv total (step s i) := by
+theorem inv_step (total : List Nat) (s : St) (i cap : Nat) (h : Inv total s) : Inv total (step s i cap) := by
   obtain ⟨threads, lock, buf, socket, appended⟩ := s
   obtain ⟨t0, t1, hth, hp, h⟩ := h
   simp only at hth hp h
   subst hth
-  obtain ⟨o0, sn0, se0⟩ := t0
-  obtain ⟨o1, sn1, se1⟩ := t1
+  obtain ⟨o0, sn0, se0, tm0⟩ := t0
+  obtain ⟨o1, sn1, se1, tm1⟩ := t1
   simp only at hp h
   match i with
   | 0 =>
-    rcases h with ⟨hl, p0, p1, hb, hs⟩ | ⟨hl, i0, p1⟩ | ⟨hl, p0, i1⟩
-    · subst hl hb hs
+    rcases h with ⟨hl, p0, p1, hs⟩ | ⟨hl, i0, p1⟩ | ⟨hl, p0, i1⟩
+    · subst hl hs
       cases p0 with
-      | nil => exact ⟨_, _, rfl, hp, .inl ⟨rfl, .nil, p1, rfl, rfl⟩⟩
-      | sd d rest pr => sb_step; exact .app _ _ rfl pr rfl rfl
-      | hw rest pr => sb_step; exact .read _ rfl pr (by simp)
+      | nil => exact ⟨_, _, rfl, hp, .inl ⟨rfl, .nil, p1, rfl⟩⟩
+      | sd d rest pr => sb_step; exact .load _ _ rfl pr rfl
+      | hw rest pr => sb_step; exact .read _ rfl pr rfl
     · subst hl
       cases i0 with
-      | app d rest ho pr hb hs =>
-        simp only at ho; subst ho hb hs; sb_step; exact .read _ rfl pr (by simp)
+      | load d rest ho pr hs =>
+        simp only at ho; subst ho hs; sb_step; exact .store _ _ rfl pr rfl rfl
+      | store d rest ho pr hs ht =>
+        simp only at ho ht; subst ho hs ht; sb_step; exact .read _ rfl pr (by simp)
       | read rest ho pr hs =>
         simp only at ho; subst ho hs; sb_step; exact .send _ rfl pr rfl rfl
       | send rest ho pr hs hn =>
-        simp only at ho hn; subst ho hs hn; sb_step; exact .cut _ rfl pr rfl rfl
-      | cut rest ho pr hs hn =>
-        simp only at ho hn; subst ho hs hn; sb_step; exact .rel _ rfl pr rfl rfl
-      | rel rest ho pr hs hb =>
-        simp only at ho; subst ho hs hb; sb_step
+        simp only at ho hn; subst ho hs hn; sb_step
+        exact .cut _ rfl pr (Nat.min_le_right _ _) (by simp [take_drop_min])
+      | cut rest ho pr hk hs =>
+        simp only at ho hk hs; subst ho hs; sb_step; exact .rel _ rfl pr rfl
+      | rel rest ho pr hs =>
+        simp only at ho; subst ho hs; sb_step
     · subst hl
       cases p0 with
       | nil => exact ⟨_, _, rfl, hp, .inr (.inr ⟨rfl, .nil, i1⟩)⟩
       | sd d rest pr => sb_step; exact .sd _ _ pr
       | hw rest pr => sb_step; exact .hw _ pr
   | 1 =>
-    rcases h with ⟨hl, p0, p1, hb, hs⟩ | ⟨hl, p0, i1⟩ | ⟨hl, p1, i0⟩
-    · subst hl hb hs
+    rcases h with ⟨hl, p0, p1, hs⟩ | ⟨hl, i0, p1⟩ | ⟨hl, p0, i1⟩
+    · subst hl hs
       cases p1 with
-      | nil => exact ⟨_, _, rfl, hp, .inl ⟨rfl, p0, .nil, rfl, rfl⟩⟩
-      | sd d rest pr => sb_step; exact .app _ _ rfl pr rfl rfl
-      | hw rest pr => sb_step; exact .read _ rfl pr (by simp)
+      | nil => exact ⟨_, _, rfl, hp, .inl ⟨rfl, p0, .nil, rfl⟩⟩
+      | sd d rest pr => sb_step; exact .load _ _ rfl pr rfl
+      | hw rest pr => sb_step; exact .read _ rfl pr rfl
     · subst hl
-      cases i1 with
-      | nil => exact ⟨_, _, rfl, hp, .inr (.inl ⟨rfl, p0, .nil⟩)⟩
+      cases p1 with
+      | nil => exact ⟨_, _, rfl, hp, .inr (.inl ⟨rfl, i0, .nil⟩)⟩
       | sd d rest pr => sb_step; exact .sd _ _ pr
       | hw rest pr => sb_step; exact .hw _ pr
     · subst hl
-      cases i0 with
-      | app d rest ho pr hb hs =>
-        simp only at ho; subst ho hb hs; sb_step; exact .read _ rfl pr (by simp)
+      cases i1 with
+      | load d rest ho pr hs =>
+        simp only at ho; subst ho hs; sb_step; exact .store _ _ rfl pr rfl rfl
+      | store d rest ho pr hs ht =>
+        simp only at ho ht; subst ho hs ht; sb_step; exact .read _ rfl pr (by simp)
       | read rest ho pr hs =>
         simp only at ho; subst ho hs; sb_step; exact .send _ rfl pr rfl rfl
       | send rest ho pr hs hn =>
-        simp only at ho hn; subst ho hs hn; sb_step; exact .cut _ rfl pr rfl rfl
-      | cut rest ho pr hs hn =>
-        simp only at ho hn; subst ho hs hn; sb_step; exact .rel _ rfl pr rfl rfl
-      | rel rest ho pr hs hb =>
-        simp only at ho; subst ho hs hb; sb_step
+        simp only at ho hn; subst ho hs hn; sb_step
+        exact .cut _ rfl pr (Nat.min_le_right _ _) (by simp [take_drop_min])
+      | cut rest ho pr hk hs =>
+        simp only at ho hk hs; subst ho hs; sb_step; exact .rel _ rfl pr rfl
+      | rel rest ho pr hs =>
+        simp only at ho; subst ho hs; sb_step
   | i + 2 => exact ⟨_, _, rfl, hp, h⟩
 
-theorem inv_run (total : List Nat) (sched : List Nat) : ∀ s, Inv total s → Inv total (run s sched) := by
+theorem inv_run (total : List Nat) (sched : List (Nat × Nat)) : ∀ s, Inv total s → Inv total (run s sched) := by
   induction sched with
   | nil => intro s h; exact h
-  | cons i is ih => intro s h; exact ih _ (inv_step total s i h)
+  | cons ic is ih => intro s h; exact ih _ (inv_step total s ic.1 ic.2 h)
 
-theorem inv_reach (frames : List (List Nat)) (flushes : Nat) (sched : List Nat) :
-    Inv frames.flatten (run (init { locked := true } frames flushes) sched) :=
+theorem inv_reach (frames : List (List Nat)) (flushes : Nat) (sched : List (Nat × Nat)) :
+    Inv frames.flatten (run (init lockedCfg frames flushes) sched) :=
   inv_run _ sched _ (inv_init frames flushes)
 
 theorem InSec.split {buf socket appended : List Nat} {t : Thread} (h : InSec buf socket appended t) :
     ∃ k, k ≤ buf.length ∧ socket ++ buf.drop k = appended := by
   cases h with
-  | app d rest ho pr hb hs => exact ⟨0, by simp, by simp [hb, hs]⟩
+  | load d rest ho pr hs => exact ⟨0, by simp, by simpa using hs⟩
+  | store d rest ho pr hs ht => exact ⟨0, by simp, by simpa using hs⟩
   | read rest ho pr hs => exact ⟨0, by simp, by simpa using hs⟩
   | send rest ho pr hs hn => exact ⟨0, by simp, by simpa using hs⟩
-  | cut rest ho pr hs hn => exact ⟨buf.length, by simp, by simp [hs]⟩
-  | rel rest ho pr hs hb => exact ⟨0, by simp, by simp [hb, hs]⟩
+  | cut rest ho pr hk hs => exact ⟨t.sent, hk, hs⟩
+  | rel rest ho pr hs => exact ⟨0, by simp, by simpa using hs⟩
 
 theorem InSec.ops_ne_nil {buf socket appended : List Nat} {t : Thread} (h : InSec buf socket appended t) :
     t.ops ≠ [] := by
@@ -163,7 +181,8 @@ theorem InSec.ops_ne_nil {buf socket appended : List Nat} {t : Thread} (h : InSe
 theorem InSec.head {buf socket appended : List Nat} {t : Thread} (h : InSec buf socket appended t) :
     ∃ op rest, t.ops = op :: rest ∧ op ≠ .acq := by
   cases h with
-  | app d rest ho => exact ⟨_, _, ho, by simp⟩
+  | load d rest ho => exact ⟨_, _, ho, by simp⟩
+  | store d rest ho => exact ⟨_, _, ho, by simp⟩
   | read rest ho => exact ⟨_, _, ho, by simp⟩
   | send rest ho => exact ⟨_, _, ho, by simp⟩
   | cut rest ho => exact ⟨_, _, ho, by simp⟩
@@ -179,69 +198,91 @@ theorem Prog.head {ops : List Op} (h : Prog ops) (hne : ops ≠ []) : ∃ rest, 
 
 /-- every byte handed to sendData is on the socket or still in the buffer, once, in order — at every moment; `k` is the part
     of the buffer that the thread inside a flush has already sent and not yet cut (0 otherwise) -/
-theorem socket_plus_buffer (frames : List (List Nat)) (flushes : Nat) (sched : List Nat) :
-    let s := run (init { locked := true } frames flushes) sched
+theorem socket_plus_buffer (frames : List (List Nat)) (flushes : Nat) (sched : List (Nat × Nat)) :
+    let s := run (init { locked := true, appendLocked := true } frames flushes) sched
     ∃ k, k ≤ s.buf.length ∧ s.socket ++ s.buf.drop k = s.appended := by
   intro s
   obtain ⟨t0, t1, _, _, h⟩ := inv_reach frames flushes sched
-  rcases h with ⟨_, _, _, hb, hs⟩ | ⟨_, i0, _⟩ | ⟨_, _, i1⟩
-  · exact ⟨0, by simp, by simp [s, hb, hs]⟩
+  rcases h with ⟨_, _, _, hs⟩ | ⟨_, i0, _⟩ | ⟨_, _, i1⟩
+  · exact ⟨0, by simp, by simpa using hs⟩
   · exact i0.split
   · exact i1.split
 
-/-- when both threads have finished (every sendData flushes itself): the socket carries exactly the frames, in order, once -/
-theorem finished_socket_exact (frames : List (List Nat)) (flushes : Nat) (sched : List Nat)
-    (hf : finished (run (init { locked := true } frames flushes) sched) = true) :
-    (run (init { locked := true } frames flushes) sched).socket = frames.flatten ∧
-    (run (init { locked := true } frames flushes) sched).buf = [] := by
+/-- whenever no critical section is in progress, socket ++ buffer is exactly what was handed to sendData -/
+theorem quiescent_exact (frames : List (List Nat)) (flushes : Nat) (sched : List (Nat × Nat)) :
+    let s := run (init { locked := true, appendLocked := true } frames flushes) sched
+    s.lock = none → s.socket ++ s.buf = s.appended := by
+  intro s hl
+  obtain ⟨t0, t1, _, _, h⟩ := inv_reach frames flushes sched
+  rcases h with ⟨_, _, _, hs⟩ | ⟨hl', _, _⟩ | ⟨hl', _, _⟩
+  · exact hs
+  · rw [hl'] at hl; cases hl
+  · rw [hl'] at hl; cases hl
+
+/-- when both threads have finished: socket ++ buffer is exactly the frames, in order, once (a last partial send may have left
+    a tail in the buffer for the next handle_write) -/
+theorem finished_exact (frames : List (List Nat)) (flushes : Nat) (sched : List (Nat × Nat)) :
+    let s := run (init { locked := true, appendLocked := true } frames flushes) sched
+    finished s = true → s.socket ++ s.buf = frames.flatten := by
+  intro s hf
   obtain ⟨t0, t1, hth, hp, h⟩ := inv_reach frames flushes sched
-  simp [finished, hth] at hf
+  simp [s, finished, hth] at hf
   obtain ⟨h0, h1⟩ := hf
-  rcases h with ⟨_, _, _, hb, hs⟩ | ⟨_, i0, _⟩ | ⟨_, _, i1⟩
+  rcases h with ⟨_, _, _, hs⟩ | ⟨_, i0, _⟩ | ⟨_, _, i1⟩
   · simp [h0, h1, pending] at hp
-    exact ⟨hs.trans hp, hb⟩
+    exact hs.trans hp
   · exact absurd h0 i0.ops_ne_nil
   · exact absurd h1 i1.ops_ne_nil
 
-theorem step_ne (s : St) (t0 t1 : Thread) (hth : s.threads = [t0, t1]) (i : Nat) (t : Thread) (op : Op) (rest : List Op)
-    (ht : s.threads[i]? = some t) (ho : t.ops = op :: rest) (hl : op = .acq → s.lock = none) : step s i ≠ s := by
+theorem step_ne (s : St) (t0 t1 : Thread) (hth : s.threads = [t0, t1]) (i cap : Nat) (t : Thread) (op : Op) (rest : List Op)
+    (ht : s.threads[i]? = some t) (ho : t.ops = op :: rest) (hl : op = .acq → s.lock = none) : step s i cap ≠ s := by
   intro h
-  have h2 : (step s i).threads[i]? = some t := by rw [h, ht]
+  have h2 : (step s i cap).threads[i]? = some t := by rw [h, ht]
   obtain ⟨threads, lock, buf, socket, appended⟩ := s
-  obtain ⟨o, sn, se⟩ := t
+  obtain ⟨o, sn, se, tm⟩ := t
   simp only at hth ho; subst hth ho
   match i with
-  | 0 => 
+  | 0 =>
     simp at ht; subst ht
     cases op <;> simp_all [step, setThread]
-  | 1 => 
+  | 1 =>
     simp at ht; subst ht
     cases op <;> simp_all [step, setThread]
   | i + 2 => simp at ht
 
 /-- no deadlock -/
-theorem progress (frames : List (List Nat)) (flushes : Nat) (sched : List Nat)
-    (hf : finished (run (init { locked := true } frames flushes) sched) = false) :
-    ∃ i, step (run (init { locked := true } frames flushes) sched) i ≠ run (init { locked := true } frames flushes) sched := by
+theorem progress (frames : List (List Nat)) (flushes : Nat) (sched : List (Nat × Nat)) :
+    let s := run (init { locked := true, appendLocked := true } frames flushes) sched
+    finished s = false → ∃ i, ∀ cap, step s i cap ≠ s := by
+  intro s hf
   obtain ⟨t0, t1, hth, hp, h⟩ := inv_reach frames flushes sched
-  rcases h with ⟨hl, p0, p1, _, _⟩ | ⟨_, i0, _⟩ | ⟨_, _, i1⟩
+  rcases h with ⟨hl, p0, p1, _⟩ | ⟨_, i0, _⟩ | ⟨_, _, i1⟩
   · by_cases h0 : t0.ops = []
     · have h1 : t1.ops ≠ [] := by
-        intro h1; simp [finished, hth, h0, h1] at hf
+        intro h1; simp [s, finished, hth, h0, h1] at hf
       obtain ⟨rest, ho⟩ := p1.head h1
-      exact ⟨1, step_ne _ t0 t1 hth 1 t1 _ rest (by simp [hth]) ho (fun _ => hl)⟩
+      exact ⟨1, fun cap => step_ne _ t0 t1 hth 1 cap t1 _ rest (by simp [hth]) ho (fun _ => hl)⟩
     · obtain ⟨rest, ho⟩ := p0.head h0
-      exact ⟨0, step_ne _ t0 t1 hth 0 t0 _ rest (by simp [hth]) ho (fun _ => hl)⟩
+      exact ⟨0, fun cap => step_ne _ t0 t1 hth 0 cap t0 _ rest (by simp [hth]) ho (fun _ => hl)⟩
   · obtain ⟨op, rest, ho, hn⟩ := i0.head
-    exact ⟨0, step_ne _ t0 t1 hth 0 t0 op rest (by simp [hth]) ho (fun h => absurd h hn)⟩
+    exact ⟨0, fun cap => step_ne _ t0 t1 hth 0 cap t0 op rest (by simp [hth]) ho (fun h => absurd h hn)⟩
   · obtain ⟨op, rest, ho, hn⟩ := i1.head
-    exact ⟨1, step_ne _ t0 t1 hth 1 t1 op rest (by simp [hth]) ho (fun h => absurd h hn)⟩
+    exact ⟨1, fun cap => step_ne _ t0 t1 hth 1 cap t1 op rest (by simp [hth]) ho (fun h => absurd h hn)⟩
 
 /-- without the lock the loop thread and a sender can both send the same bytes (and the second cut then drops bytes that
     were never sent) -/
 theorem unlocked_duplicates :
-    ∃ sched, let s := run (init { locked := false } [[1, 2, 3], [4, 5]] 1) sched
-      finished s = true ∧ s.socket ≠ [1, 2, 3, 4, 5] :=
-  ⟨[0, 0, 1, 0, 1, 1, 0, 0, 0, 0, 0], by decide⟩
+    ∃ sched, let s := run (init { locked := false, appendLocked := false } [[1, 2, 3], [4, 5]] 1) sched
+      finished s = true ∧ s.socket ++ s.buf ≠ [1, 2, 3, 4, 5] :=
+  ⟨[(0, 65536), (0, 65536), (0, 65536), (1, 65536), (0, 65536), (1, 65536), (1, 65536), (0, 65536), (0, 65536), (0, 65536),
+    (0, 65536), (0, 65536), (0, 65536)], by decide⟩
+
+/-- with the flush locked but the append outside the lock: a partial send leaves a byte in the buffer, the sender loads the
+    buffer for its next append, the loop thread flushes that byte, and the sender's store puts it back — it is sent twice -/
+theorem append_outside_lock_repeats :
+    ∃ sched, let s := run (init { locked := true, appendLocked := false } [[1, 2], [3]] 1) sched
+      finished s = true ∧ s.socket ++ s.buf ≠ [1, 2, 3] :=
+  ⟨[(0, 65536), (0, 65536), (0, 65536), (0, 65536), (0, 1), (0, 65536), (0, 65536), (0, 65536), (1, 65536), (1, 65536),
+    (1, 65536), (1, 65536), (1, 65536), (0, 65536), (0, 65536), (0, 65536), (0, 65536), (0, 65536), (0, 65536)], by decide⟩
 
 end Yow.SendBuf
